@@ -65,6 +65,9 @@ func init() {
 				c.Drop(cfg)
 			}
 		}
+		// "the receiver is set": every mutator and arithmetic routine assigns its whole output on every
+		// returning path (a shortcut that returns the receiver untouched leaves the previous value in it)
+		CheckMustWrite(c, "C01")
 	}})
 	Register(&Property{ID: "C20", Trusted: commonTrusted, RuleText: "EFX-RO", Explanation: "read-only (effects)", Run: func(c *Ctx) {
 		cfgs := []string{"default", "ct"}
@@ -124,11 +127,15 @@ func roTargetsForShuffle(c *Ctx) {
 func fresh(pre ...string) func(c *Ctx) { return func(c *Ctx) { CheckFreshRet(c, pre) } }
 func ptreq(pk ...string) func(c *Ctx) { return func(c *Ctx) { PointerEquality(c, "default", pk) } }
 
+func appendRule(pk ...string) func(c *Ctx) { return func(c *Ctx) { AppendClobber(c, "default", pk) } }
+
+func shiftRule(pk ...string) func(c *Ctx) { return func(c *Ctx) { ShiftWidth(c, "default", pk) } }
+
 func loopShare(pk ...string) func(c *Ctx) { return func(c *Ctx) { LoopShare(c, "default", pk) } }
 
 func init() {
 	stale := func(pk ...string) func(c *Ctx) { return func(c *Ctx) { StaleResults(c, "default", pk) } }
-	extraRules["C15"] = both(stale("shuffle", "proof"), loopShare("shuffle"), func(c *Ctx) { CheckMustWrite(c, "C15") }, fresh("shuffle."), roTargetsForShuffle)
+	extraRules["C15"] = both(appendRule("shuffle", "proof"), stale("shuffle", "proof"), loopShare("shuffle"), func(c *Ctx) { CheckMustWrite(c, "C15") }, fresh("shuffle."), roTargetsForShuffle)
 	roTargetsFor := func(names ...string) func(c *Ctx) {
 		return func(c *Ctx) {
 			p := c.Prog("default")
@@ -157,19 +164,19 @@ func init() {
 			CheckFlow(c, prop, specs, reads)
 		}
 	}
-	extraRules["C14"] = both(stale("proof"), loopShare("proof"), flowOf("C14"))
-	extraRules["C13"] = both(stale("share/pvss", "proof/dleq"), roTargetsFor("share/pvss.", "proof/dleq."), loopShare("share/pvss", "proof/dleq"),
+	extraRules["C14"] = both(appendRule("proof"), stale("proof"), loopShare("proof"), flowOf("C14"), func(c *Ctx) { CheckMustWrite(c, "C14") })
+	extraRules["C13"] = both(appendRule("share/pvss", "proof/dleq", "share"), func(c *Ctx) { CheckMustWrite(c, "C13") }, stale("share/pvss", "proof/dleq"), roTargetsFor("share/pvss.", "proof/dleq."), loopShare("share/pvss", "proof/dleq"),
 		func(c *Ctx) { AccGate(c, "default", "C13") })
 	extraRules["C06"] = both(roTargetsFor(").Pair", ").ValidatePairing"), func(c *Ctx) { SiblingSkeletonCheck(c, "default") }, flowOf("C06"))
 	extraRules["__ro_c08"] = roTargetsFor("sign/eddsa.", "sign/schnorr.", "sign/anon.Verify", "sign/anon.Sign")
 	// ciphertexts, keys and messages are inputs only: a decryptor that writes into its ciphertext can
 	// make its own integrity comparison vacuous (anon header) or break a second decryption
-	extraRules["C16"] = both(roTargetsFor("encrypt/ecies.", "encrypt/ibe.", "sign/anon.Encrypt", "sign/anon.Decrypt"),
+	extraRules["C16"] = both(shiftRule("encrypt", "sign/anon"), appendRule("encrypt", "sign/anon", "util/key"), roTargetsFor("encrypt/ecies.", "encrypt/ibe.", "sign/anon.Encrypt", "sign/anon.Decrypt"),
 		func(c *Ctx) { LenGuard(c, "default", []string{"encrypt", "sign/anon"}) }, fresh("encrypt/", "sign/anon."))
-	extraRules["C08"] = both(stale("sign/schnorr", "sign/eddsa", "sign/anon"), entropyRule("C08"),
+	extraRules["C08"] = both(appendRule("sign/schnorr", "sign/eddsa", "sign/anon"), func(c *Ctx) { CheckMustWrite(c, "C08") }, stale("sign/schnorr", "sign/eddsa", "sign/anon"), entropyRule("C08"),
 		func(c *Ctx) { extraRules["__ro_c08"](c) }, fresh("sign/eddsa.", "sign/schnorr.", "sign/anon."), ptreq("sign/eddsa", "sign/schnorr", "sign/anon"))
 	extraRules["__fresh_c03"] = fresh("MarshalBinary", "Clone", ".Data", ".String", "util/encoding.")
-	extraRules["C02"] = both(entropyRule("C02"), func(c *Ctx) { ScalarModulus(c, "default") }, func(c *Ctx) {
+	extraRules["C02"] = both(func(c *Ctx) { CheckMustWrite(c, "C02") }, shiftRule("group/edwards25519", "group/mod", "compatible", "pairing/bls12381", "util/random"), entropyRule("C02"), func(c *Ctx) { ScalarModulus(c, "default") }, func(c *Ctx) {
 		specs, reads := FlowSpecs(c, "C02")
 		CheckFlow(c, "C02", specs, reads)
 	}, func(c *Ctx) {
@@ -177,8 +184,8 @@ func init() {
 			cfgTag(c, cfg, func() { ReduceDiscipline(c, cfg) })
 		}
 	})
-	extraRules["C17"] = entropyRule("C17")
-	extraRules["C19"] = both(entropyRule("C19"), func(c *Ctx) { CheckMustWrite(c, "C19") }, func(c *Ctx) {
+	extraRules["C17"] = both(entropyRule("C17"), shiftRule("group", "pairing"))
+	extraRules["C19"] = both(shiftRule("xof", "util/random"), appendRule("xof", "util/random"), entropyRule("C19"), func(c *Ctx) { CheckMustWrite(c, "C19") }, func(c *Ctx) {
 		// XOF clones share no mutable state with their original (EFX-INDEP) and Clone writes nothing
 		p := c.Prog("default")
 		if p == nil {
@@ -216,6 +223,7 @@ func init() {
 	})
 	extraRules["C09"] = func(c *Ctx) {
 		stale("sign/bls", "sign/tbls", "sign/bdn", "sign/cosi")(c)
+		appendRule("sign/bls", "sign/tbls", "sign/bdn", "sign/cosi", "share")(c)
 		PairedUpdates(c, "default")
 		CheckMustWrite(c, "C09")
 		AccGate(c, "default", "C09")
@@ -223,9 +231,13 @@ func init() {
 		fresh("sign/bls.", "sign/tbls.", "sign/bdn.", "sign/cosi.")(c)
 		ptreq("sign/bls", "sign/tbls", "sign/bdn", "sign/cosi")(c)
 	}
-	extraRules["C07"] = both(stale("share"), fresh("share.", "(*share."), ptreq("share"))
+	extraRules["C07"] = both(appendRule("share"), func(c *Ctx) { CheckMustWrite(c, "C07") }, stale("share"), fresh("share.", "(*share."), ptreq("share"))
 	extraRules["C04"] = func(c *Ctx) {
 		CheckMustWrite(c, "C04")
+		if p := c.Prog("default"); p != nil {
+			decodersReadOnly(c, p, efx.NewAnalyzer(p))
+		}
+		ShiftWidth(c, "default", []string{"group", "pairing", "internal", "util/encoding", "compatible"})
 		ErrDrop(c, "default", []string{"group", "pairing", "sign", "share", "proof", "shuffle", "encrypt", "internal", "util/encoding"})
 		LenGuard(c, "default", []string{"group", "pairing", "sign", "share", "proof", "shuffle", "encrypt", "internal", "util/encoding"})
 	}
@@ -233,14 +245,32 @@ func init() {
 		WriterDiscipline(c, "default", "C10")
 		CheckMustWrite(c, "C10")
 		LoopShare(c, "default", []string{"share/vss/pedersen", "share/vss/rabin"})
+		appendRule("share/vss", "internal")(c)
 		fresh("share/vss/")(c)
 	}
 	extraRules["C11"] = func(c *Ctx) {
 		WriterDiscipline(c, "default", "C11")
 		CheckMustWrite(c, "C11")
 		LoopShare(c, "default", []string{"share/dkg/pedersen", "share/dkg/rabin"})
+		appendRule("share/dkg", "share/vss/rabin")(c)
 	}
-	extraRules["C12"] = func(c *Ctx) { WriterDiscipline(c, "default", "C12"); CheckMustWrite(c, "C12"); AccGate(c, "default", "C12") }
+	extraRules["C12"] = func(c *Ctx) { appendRule("sign/dss")(c); WriterDiscipline(c, "default", "C12"); CheckMustWrite(c, "C12"); AccGate(c, "default", "C12") }
+}
+
+// decodersReadOnly: decoding never changes the bytes decoded (a decoder that reverses or masks its
+// input in place hands a different encoding back to its caller: re-encoding no longer matches the
+// buffer, a second decode of the same buffer gives another value)
+func decodersReadOnly(c *Ctx, p *core.Prog, an *efx.Analyzer) {
+	for _, it := range c.implTypes(p) {
+		if it.Kind == "xof" {
+			continue
+		}
+		for _, m := range []string{"UnmarshalBinary", "SetBytes", "Embed", "Hash"} {
+			if fn := p.Method(it.Named, m); fn != nil && len(fn.Blocks) > 0 && fn.Synthetic == "" {
+				roCheck(c, p, an, fn, "EFX-RO", map[int]bool{0: true})
+			}
+		}
+	}
 }
 
 func init() {
@@ -263,7 +293,9 @@ func init() {
 				}
 			}
 		}
+		decodersReadOnly(c, p, an)
 		SizeTables(c, "default")
+		ShiftWidth(c, "default", []string{"group", "pairing", "util/encoding", "compatible"})
 		extraRules["__fresh_c03"](c)
 	}})
 }
@@ -280,6 +312,9 @@ func init() {
 			// the generator / identity a group hands out must not be reachable for writing through a
 			// point that was set from it (Base/Null sharing storage with the group descriptor)
 			EFXValueSemantics(c, "default", an)
+			// the identities are stated for every operand, also when operands coincide with each other or with
+			// the receiver (P - P = O computed as p.Sub(p, p)): the aliasing scenarios of C05 are obligations here too
+			EFXAlias(c, "default", an)
 		}
 	}})
 }
